@@ -91,6 +91,23 @@ theorem take_drop_count (l : List Tok) (n a : Nat) :
     ((l.take n).map (·.id)).count a + ((l.drop n).map (·.id)).count a = (l.map (·.id)).count a := by
   rw [← List.count_append, ← List.map_append, List.take_append_drop]
 
+/-- replacing the token at position `k`: its id leaves the list, the new token's id enters -/
+theorem count_set_ids (l : List Tok) (k : Nat) (t x : Tok) (h : l[k]? = some t) (a : Nat) :
+    ((l.set k x).map (·.id)).count a + [t.id].count a = (l.map (·.id)).count a + [x.id].count a := by
+  induction l generalizing k with
+  | nil => simp at h
+  | cons y ys ih =>
+    cases k with
+    | zero =>
+      simp at h; subst h
+      show ([x.id] ++ ys.map (·.id)).count a + _ = ([y.id] ++ ys.map (·.id)).count a + _
+      simp only [List.count_append]; omega
+    | succ k =>
+      simp at h
+      have := ih k h
+      show ([y.id] ++ (ys.set k x).map (·.id)).count a + _ = ([y.id] ++ ys.map (·.id)).count a + _
+      simp only [List.count_append]; omega
+
 /-- an in-place update of values keeps every identity -/
 theorem revalue_ids (l : List Tok) (f : Int → Int) :
     (l.map fun t => (⟨t.id, f t.val⟩ : Tok)).map (·.id) = l.map (·.id) := by
@@ -346,6 +363,48 @@ theorem step_inv (w : World) (op : Op) (h : Inv w) : Inv (step w op) := by
       have hr := count_range_add w.nextId (R * C) a
       simp only [World.ledger, List.count_append, Mat.ids, fresh_ids] at hc hl ⊢
       omega
+  | setElem r k =>
+    simp only [step]
+    split
+    · exact h
+    · rename_i m hm
+      split
+      · exact h
+      · rename_i t ht
+        have hmem : m ∈ w.regs := List.mem_of_getElem? hm
+        constructor
+        · apply coh_set h.coh
+          have := h.coh m hmem
+          simp only [Mat.Coh, List.length_set] at this ⊢
+          exact this
+        · rw [List.perm_iff_count]; intro a
+          have hc := count_liveIds_set w.regs r m { m with data := m.data.set k ⟨w.nextId, 0⟩ } hm a
+          have hs := count_set_ids m.data k t ⟨w.nextId, 0⟩ ht a
+          have hl := hled a
+          have hr := count_range_add w.nextId 1 a
+          simp only [World.ledger, List.count_append, Mat.ids, List.range'_one] at hc hs hl hr ⊢
+          omega
+  | updElem r k =>
+    simp only [step]
+    split
+    · exact h
+    · rename_i m hm
+      split
+      · exact h
+      · rename_i t ht
+        have hmem : m ∈ w.regs := List.mem_of_getElem? hm
+        constructor
+        · apply coh_set h.coh
+          have := h.coh m hmem
+          simp only [Mat.Coh, List.length_set] at this ⊢
+          exact this
+        · rw [List.perm_iff_count]; intro a
+          have hc := count_liveIds_set w.regs r m { m with data := m.data.set k ⟨w.nextId, t.val + 1⟩ } hm a
+          have hs := count_set_ids m.data k t ⟨w.nextId, t.val + 1⟩ ht a
+          have hl := hled a
+          have hr := count_range_add w.nextId 1 a
+          simp only [World.ledger, List.count_append, Mat.ids, List.range'_one] at hc hs hl hr ⊢
+          omega
 
 /-- the invariant survives every finite history from any state that satisfies it -/
 theorem run_inv_from (w : World) (ops : List Op) (h : Inv w) : Inv (run w ops) := by
@@ -418,6 +477,32 @@ theorem step_delta (w : World) (op : Op) :
     · simp
   | assignInPlace x c => simp only [step, delta]; split <;> simp
   | newMatrix R C => simp [step, delta]
+  | setElem r k =>
+    simp only [step, delta]
+    split
+    · simp
+    · rename_i m hm
+      split
+      · rename_i hn
+        have : ¬ k < m.data.length := by
+          intro hlt; rw [List.getElem?_eq_getElem hlt] at hn; cases hn
+        rw [if_neg this]; simp
+      · rename_i t ht
+        have : k < m.data.length := (List.getElem?_eq_some_iff.mp ht).1
+        rw [if_pos this]; simp
+  | updElem r k =>
+    simp only [step, delta]
+    split
+    · simp
+    · rename_i m hm
+      split
+      · rename_i hn
+        have : ¬ k < m.data.length := by
+          intro hlt; rw [List.getElem?_eq_getElem hlt] at hn; cases hn
+        rw [if_neg this]; simp
+      · rename_i t ht
+        have : k < m.data.length := (List.getElem?_eq_some_iff.mp ht).1
+        rw [if_pos this]; simp
 
 /-! ### non-vacuity: a concrete history -/
 
@@ -438,6 +523,20 @@ example :
         nextId := 24,
         dropped := [0, 3, 14, 15, 9, 7, 8, 6, 19, 20, 16, 17, 18, 2, 5],
         out := [10, 11, 1, 4] } := by
+  decide
+
+/-- element writes on a 2×3 matrix: an in-range `*m.get_mut(..)? = v` (token 4 dropped, token 6
+created in its place), an out-of-range one (`IndexOutOfBounds`: the ledger is untouched), an
+in-place update (token 0 consumed by the closure, token 7 created in its place) -/
+example :
+    run ⟨[], 0, [], []⟩ [.newMatrix 2 3, .setElem 0 4, .setElem 0 6, .updElem 0 0]
+    = { regs := [{ major := 2, minor := 3, data := [⟨7, 1⟩, ⟨1, 0⟩, ⟨2, 0⟩, ⟨3, 0⟩, ⟨6, 0⟩, ⟨5, 0⟩] }],
+        nextId := 8, dropped := [4, 0], out := [] } := by
+  decide
+
+example : delta (run ⟨[], 0, [], []⟩ [.newMatrix 2 3]) (.setElem 0 4) = (1, 1, 0) ∧
+    delta (run ⟨[], 0, [], []⟩ [.newMatrix 2 3]) (.setElem 0 6) = (0, 0, 0) ∧
+    delta (run ⟨[], 0, [], []⟩ [.newMatrix 2 3]) (.updElem 0 5) = (1, 1, 0) := by
   decide
 
 /-- after dropping everything no token is live … -/
